@@ -74,3 +74,54 @@ func anyFsnotifyRunnable() bool {
 	}
 	return false
 }
+
+var fsnotifyFrame = regexp.MustCompile(`github\.com/fsnotify/fsnotify\.[^\s(]*(\([^)]*\))?[\w.]*`)
+
+// spinning returns, for every goroutine that is running or runnable inside
+// fsnotify, "id@innermost fsnotify function".
+func spinning() map[string]string {
+	out := map[string]string{}
+	for _, g := range FsnotifyGoroutines() {
+		m := goHeader.FindStringSubmatch(g)
+		if m == nil || (m[2] != "running" && m[2] != "runnable") {
+			continue
+		}
+		if f := fsnotifyFrame.FindString(g); f != "" {
+			out[m[1]] = f
+		}
+	}
+	return out
+}
+
+// SpinProof recognises a livelock: a goroutine has been running (never
+// blocked, never finished) in the same fsnotify function across four dumps
+// spread over twelve seconds - for code whose critical sections take
+// microseconds. Returns a description, or "" when nothing of the kind is seen.
+// CPU starvation moves a goroutine between functions or lets it finish; only an
+// unbounded loop keeps it in one place for that long.
+func SpinProof() string {
+	first := spinning()
+	if len(first) == 0 {
+		return ""
+	}
+	for i := 0; i < 3; i++ {
+		time.Sleep(4 * time.Second)
+		now := spinning()
+		for id, f := range first {
+			if now[id] != f {
+				delete(first, id)
+			}
+		}
+		if len(first) == 0 {
+			return ""
+		}
+	}
+	for id, f := range first {
+		for _, g := range FsnotifyGoroutines() {
+			if m := goHeader.FindStringSubmatch(g); m != nil && m[1] == id {
+				return "goroutine " + id + " has been running in " + f + " for 12 s without blocking or finishing (unbounded loop)\n" + g
+			}
+		}
+	}
+	return ""
+}
